@@ -1,0 +1,220 @@
+//go:build verif
+
+package mem
+
+import (
+	"strconv"
+
+	"github.com/inbucket/inbucket/v3/pkg/extension"
+	"github.com/inbucket/inbucket/v3/pkg/extension/event"
+	"github.com/inbucket/inbucket/v3/pkg/storage"
+)
+
+var _ extension.Host
+var _ event.MessageMetadata
+
+var _ = strconv.Itoa
+var _ storage.Store
+
+// ---------------------------------------------------------------------------------------------
+// C07 (memory back-end): representation invariant and the operations against the ordered-mailbox model.
+
+// Every key of a mailbox maps to a message that carries that key as its id, whose id is the decimal
+// form of its index, whose index lies in [first, last], and that belongs to this mailbox.  Hence ids
+// are unique (strconv.Itoa is injective) and never reused (AddMessage only increments last).
+//@ pred spec_mboxOK(mb *mbox) bool = mb != nil && mb.messages != nil && mb.first <= mb.last+1 &&
+//@     forall k string :: { vcHas(mb.messages, k) } vcHas(mb.messages, k) ==>
+//@        mb.messages[k] != nil && mb.messages[k].id == k && k == strconv.Itoa(mb.messages[k].index) &&
+//@        mb.first <= mb.messages[k].index && mb.messages[k].index <= mb.last && mb.messages[k].mailbox == mb.name
+
+func ghost_closed(c chan *msgDone) bool { panic("ghost") }
+
+//@ pred spec_storeOK(s *Store) bool = s.boxes != nil && s.extHost != nil && s.extHost.Events != nil &&
+//@     !ghost_closed(s.incoming) && !ghost_closed(s.remove) &&
+//@     (forall n string :: { vcHas(s.boxes, n) } vcHas(s.boxes, n) ==> spec_mboxOK(s.boxes[n]) && s.boxes[n].name == n) &&
+//@     (forall n1 string, n2 string :: { vcHas(s.boxes, n1), vcHas(s.boxes, n2) } vcHas(s.boxes, n1) && vcHas(s.boxes, n2) && n1 != n2 ==> !vcSameMap(s.boxes[n1].messages, s.boxes[n2].messages))
+
+//@ func (*Store).withMailbox
+//@   inline
+//@ func (*Store).enforcerDeliver
+//@   inline
+//@ func (*Store).enforcerRemove
+//@   inline
+
+// Getters of a stored message.
+//@ func (*Message).Mailbox
+//@   ensures ret == m.mailbox
+//@   serves C07
+//@ func (*Message).ID
+//@   ensures ret == m.id
+//@   serves C07
+//@ func (*Message).Subject
+//@   ensures ret == m.subject
+//@   serves C07
+//@ func (*Message).From
+//@   ensures ret == m.from
+//@   serves C07
+//@ func (*Message).Size
+//@   ensures ret == int64(len(m.source))
+//@   serves C07 C02
+//@ func (*Message).Seen
+//@   ensures ret == m.seen
+//@   serves C07
+
+// GetMessage by id: the message stored under that id in that mailbox, or ErrNotExist — never
+// "no message and no error".
+//@ func (*Store).GetMessage
+//@   requires spec_storeOK(s)
+//@   modifies mapof(s.boxes)
+//@   ensures[xor] (m != nil) != (err != nil)
+//@   ensures[notExist] id != "latest" && !(old(vcHas(s.boxes, mailbox)) && old(vcHas(s.boxes[mailbox].messages, id))) ==> err == storage.ErrNotExist
+//@   ensures spec_storeOK(s)
+//@   serves C07 C14
+
+// GetMessages: exactly the messages of the mailbox, oldest first.
+//@ pred spec_inBox(mb *mbox, v storage.Message) bool = v != nil && v.(*Message) != nil &&
+//@     vcHas(mb.messages, v.(*Message).id) && mb.messages[v.(*Message).id] == v.(*Message)
+
+//@ func (*Store).GetMessages$1
+//@   inline
+//@   loop 1: invariant 0 <= ridx && len(ms) == ridx && vcFresh(ms) && mb != nil
+//@   loop 1: invariant forall i int :: { ms[i] } 0 <= i && i < len(ms) ==> spec_inBox(mb, ms[i])
+
+//@ func (*Store).GetMessages
+//@   requires spec_storeOK(s)
+//@   modifies mapof(s.boxes)
+//@   ensures err == nil && vcHas(s.boxes, mailbox)
+//@   ensures[inv] spec_storeOK(s)
+//@   ensures[complete] len(ms) == len(s.boxes[mailbox].messages)
+//@   ensures[members] forall i int :: { ms[i] } 0 <= i && i < len(ms) ==> spec_inBox(s.boxes[mailbox], ms[i])
+//@   ensures[oldestFirst] forall i int, j int :: { ms[i], ms[j] } 0 <= i && i < j && j < len(ms) ==> ms[i].(*Message).index <= ms[j].(*Message).index
+//@   ensures[untouched] forall n string :: { vcHas(s.boxes, n) } old(vcHas(s.boxes, n)) ==> vcHas(s.boxes, n) && s.boxes[n] == old(s.boxes[n])
+//@   serves C07
+
+// MarkSeen: sets the seen flag of exactly that message; a message that does not exist is ErrNotExist.
+//@ func (*Store).MarkSeen
+//@   requires spec_storeOK(s)
+//@   modifies mapof(s.boxes), s.boxes[mailbox].messages[id].seen
+//@   ensures spec_storeOK(s)
+//@   ensures[notExist] !(old(vcHas(s.boxes, mailbox)) && old(vcHas(s.boxes[mailbox].messages, id))) ==> ret == storage.ErrNotExist
+//@   ensures[marks] old(vcHas(s.boxes, mailbox)) && old(vcHas(s.boxes[mailbox].messages, id)) ==> ret == nil && s.boxes[mailbox].messages[id].seen
+//@   serves C07
+
+// removeMessage: removes exactly that key (if present) and emits one deleted event for it.
+func ghost_nemitted(eb *extension.AsyncEventBroker[event.MessageMetadata]) int { panic("ghost") }
+func ghost_emitted(eb *extension.AsyncEventBroker[event.MessageMetadata]) vcSeq[*event.MessageMetadata] {
+	panic("ghost")
+}
+
+//@ func (*Store).removeMessage
+//@   requires spec_storeOK(s)
+//@   modifies mapof(s.boxes), mapof(s.boxes[mailbox].messages), ghost_nemitted(&s.extHost.Events.AfterMessageDeleted), ghost_emitted(&s.extHost.Events.AfterMessageDeleted)
+//@   ensures spec_storeOK(s)
+//@   ensures[result] (ret != nil) == (old(vcHas(s.boxes, mailbox)) && old(vcHas(s.boxes[mailbox].messages, id)))
+//@   ensures[resultIs] ret != nil ==> ret == old(s.boxes[mailbox].messages[id])
+//@   ensures[removed] vcHas(s.boxes, mailbox) && !vcHas(s.boxes[mailbox].messages, id)
+//@   ensures[others] forall k string :: { vcHas(s.boxes[mailbox].messages, k) } k != id && old(vcHas(s.boxes, mailbox)) ==>
+//@      vcHas(s.boxes[mailbox].messages, k) == old(vcHas(s.boxes[mailbox].messages, k)) && s.boxes[mailbox].messages[k] == old(s.boxes[mailbox].messages[k])
+//@   ensures[oneEvent C16] ghost_nemitted(&s.extHost.Events.AfterMessageDeleted) == old(ghost_nemitted(&s.extHost.Events.AfterMessageDeleted)) + vcIte(ret != nil, 1, 0)
+//@   ensures[eventIdentity C16] ret != nil ==>
+//@      vcSeqAt(ghost_emitted(&s.extHost.Events.AfterMessageDeleted), old(ghost_nemitted(&s.extHost.Events.AfterMessageDeleted))).ID == id &&
+//@      vcSeqAt(ghost_emitted(&s.extHost.Events.AfterMessageDeleted), old(ghost_nemitted(&s.extHost.Events.AfterMessageDeleted))).Mailbox == mailbox
+//@   serves C07 C16
+
+// RemoveMessage: a message that does not exist is ErrNotExist.
+//@ func (*Store).RemoveMessage
+//@   requires spec_storeOK(s)
+//@   modifies mapof(s.boxes), mapof(s.boxes[mailbox].messages), ghost_nemitted(&s.extHost.Events.AfterMessageDeleted), ghost_emitted(&s.extHost.Events.AfterMessageDeleted)
+//@   ensures spec_storeOK(s)
+//@   ensures[notExist] !(old(vcHas(s.boxes, mailbox)) && old(vcHas(s.boxes[mailbox].messages, id))) ==> ret == storage.ErrNotExist
+//@   ensures[removed] old(vcHas(s.boxes, mailbox)) && old(vcHas(s.boxes[mailbox].messages, id)) ==> ret == nil && !vcHas(s.boxes[mailbox].messages, id)
+//@   serves C07 C16
+
+// AddMessage: the new message gets the next index of its mailbox as id (never used before), is
+// stored with the metadata and content it was given; with a cap, the oldest messages are evicted
+// until the cap holds, and nothing else changes.
+//@ pred spec_boxInv(mb *mbox) bool = mb != nil && mb.messages != nil && mb.first <= mb.last+1 &&
+//@     forall k string :: { vcHas(mb.messages, k) } vcHas(mb.messages, k) ==>
+//@        mb.messages[k] != nil && mb.messages[k].id == k && k == strconv.Itoa(mb.messages[k].index) &&
+//@        mb.first <= mb.messages[k].index && mb.messages[k].index <= mb.last && mb.messages[k].mailbox == mb.name
+
+//@ func (*Store).AddMessage$1
+//@   inline
+//@   loop 1: invariant spec_boxInv(mb) && s != nil && s.cap > 0 && m != nil && id == strconv.Itoa(mb.last) && vcHas(mb.messages, id) && mb.messages[id] == m
+//@   loop 1: invariant forall k string :: { vcHas(mb.messages, k) } old(vcHas(mb.messages, k)) && old(mb.messages[k].index) >= mb.first ==> vcHas(mb.messages, k) && mb.messages[k] == old(mb.messages[k])
+//@   loop 1: invariant (vcFresh(evicted) || len(evicted) == 0) && len(evicted) + len(mb.messages) == old(len(mb.messages)) + 1
+//@   loop 1: invariant forall i int :: { evicted[i] } 0 <= i && i < len(evicted) ==> evicted[i] != nil
+//@   loop 1: decreases mb.last - mb.first
+
+// capEvicted: one deleted event per evicted message, carrying its id and mailbox.
+//@ func (*Store).capEvicted
+//@   requires s.extHost != nil && s.extHost.Events != nil && !ghost_closed(s.remove)
+//@   requires forall i int :: { evicted[i] } 0 <= i && i < len(evicted) ==> evicted[i] != nil
+//@   modifies ghost_nemitted(&s.extHost.Events.AfterMessageDeleted), ghost_emitted(&s.extHost.Events.AfterMessageDeleted)
+//@   ensures[oneEventEach C16] ghost_nemitted(&s.extHost.Events.AfterMessageDeleted) == old(ghost_nemitted(&s.extHost.Events.AfterMessageDeleted)) + len(evicted)
+//@   ensures[eventIdentity C16] forall i int :: { evicted[i] } 0 <= i && i < len(evicted) ==>
+//@      vcSeqAt(ghost_emitted(&s.extHost.Events.AfterMessageDeleted), old(ghost_nemitted(&s.extHost.Events.AfterMessageDeleted)) + i).ID == evicted[i].id &&
+//@      vcSeqAt(ghost_emitted(&s.extHost.Events.AfterMessageDeleted), old(ghost_nemitted(&s.extHost.Events.AfterMessageDeleted)) + i).Mailbox == evicted[i].mailbox
+//@   loop 1: invariant 0 <= ridx && ridx <= len(evicted) && ghost_nemitted(&s.extHost.Events.AfterMessageDeleted) == old(ghost_nemitted(&s.extHost.Events.AfterMessageDeleted)) + ridx
+//@   loop 1: invariant forall i int :: { evicted[i] } 0 <= i && i < ridx ==>
+//@      vcSeqAt(ghost_emitted(&s.extHost.Events.AfterMessageDeleted), old(ghost_nemitted(&s.extHost.Events.AfterMessageDeleted)) + i).ID == evicted[i].id &&
+//@      vcSeqAt(ghost_emitted(&s.extHost.Events.AfterMessageDeleted), old(ghost_nemitted(&s.extHost.Events.AfterMessageDeleted)) + i).Mailbox == evicted[i].mailbox
+//@   loop 1: decreases len(evicted) - ridx
+//@   serves C16 C08
+
+//@ func (*Store).AddMessage
+//@   requires spec_storeOK(s) && message != nil
+//@   modifies mapof(s.boxes), s.boxes[message.Mailbox()].last, s.boxes[message.Mailbox()].first, mapof(s.boxes[message.Mailbox()].messages),
+//@      ghost_nemitted(&s.extHost.Events.AfterMessageDeleted), ghost_emitted(&s.extHost.Events.AfterMessageDeleted)
+//@   ensures spec_storeOK(s)
+//@   ensures[stored] err == nil ==> vcHas(s.boxes, message.Mailbox()) && vcHas(s.boxes[message.Mailbox()].messages, id) &&
+//@      s.boxes[message.Mailbox()].messages[id].mailbox == message.Mailbox() && s.boxes[message.Mailbox()].messages[id].subject == message.Subject() &&
+//@      s.boxes[message.Mailbox()].messages[id].from == message.From() && vcFresh(s.boxes[message.Mailbox()].messages[id])
+//@   ensures[freshID] err == nil && old(vcHas(s.boxes, message.Mailbox())) ==> !old(vcHas(s.boxes[message.Mailbox()].messages, id)) &&
+//@      id == strconv.Itoa(old(s.boxes[message.Mailbox()].last) + 1)
+//@   ensures[cap C08] err == nil && s.cap > 0 ==> len(s.boxes[message.Mailbox()].messages) <= s.cap
+//@   ensures[evictOldest C08] err == nil && old(vcHas(s.boxes, message.Mailbox())) ==> forall k string :: { vcHas(s.boxes[message.Mailbox()].messages, k) }
+//@      old(vcHas(s.boxes[message.Mailbox()].messages, k)) && old(s.boxes[message.Mailbox()].messages[k].index) >= s.boxes[message.Mailbox()].first ==>
+//@         vcHas(s.boxes[message.Mailbox()].messages, k) && s.boxes[message.Mailbox()].messages[k] == old(s.boxes[message.Mailbox()].messages[k])
+//@   ensures[evictionEvents C16] err == nil && old(vcHas(s.boxes, message.Mailbox())) ==>
+//@      ghost_nemitted(&s.extHost.Events.AfterMessageDeleted) - old(ghost_nemitted(&s.extHost.Events.AfterMessageDeleted)) ==
+//@         old(len(s.boxes[message.Mailbox()].messages)) + 1 - len(s.boxes[message.Mailbox()].messages)
+//@   ensures[noCapNoEviction C08] err == nil && s.cap <= 0 && old(vcHas(s.boxes, message.Mailbox())) ==> s.boxes[message.Mailbox()].first == old(s.boxes[message.Mailbox()].first)
+//@   serves C07 C08 C01
+
+// PurgeMessages: the mailbox becomes empty; one deleted event per message that was in it, each
+// carrying the mailbox name and the id of one of those messages.
+//@ pred spec_detached(ms map[string]*Message, box string) bool = forall k string :: { vcHas(ms, k) } vcHas(ms, k) ==> ms[k] != nil && ms[k].id == k && ms[k].mailbox == box
+//@ func (*Store).PurgeMessages$1
+//@   inline
+//@ func (*Store).PurgeMessages
+//@   requires spec_storeOK(s)
+//@   modifies mapof(s.boxes), s.boxes[mailbox].messages, ghost_nemitted(&s.extHost.Events.AfterMessageDeleted), ghost_emitted(&s.extHost.Events.AfterMessageDeleted)
+//@   ensures spec_storeOK(s) && ret == nil
+//@   ensures[emptied] vcHas(s.boxes, mailbox) && len(s.boxes[mailbox].messages) == 0
+//@   ensures[oneEventEach C16] old(vcHas(s.boxes, mailbox)) ==>
+//@      ghost_nemitted(&s.extHost.Events.AfterMessageDeleted) == old(ghost_nemitted(&s.extHost.Events.AfterMessageDeleted)) + old(len(s.boxes[mailbox].messages))
+//@   ensures[eventMailbox C16] forall j int :: { vcSeqAt(ghost_emitted(&s.extHost.Events.AfterMessageDeleted), j) }
+//@      old(ghost_nemitted(&s.extHost.Events.AfterMessageDeleted)) <= j && j < ghost_nemitted(&s.extHost.Events.AfterMessageDeleted) ==>
+//@         vcSeqAt(ghost_emitted(&s.extHost.Events.AfterMessageDeleted), j).Mailbox == mailbox
+//@   ensures[eventIdentity C16] old(vcHas(s.boxes, mailbox)) ==> forall j int :: { vcSeqAt(ghost_emitted(&s.extHost.Events.AfterMessageDeleted), j) }
+//@      old(ghost_nemitted(&s.extHost.Events.AfterMessageDeleted)) <= j && j < ghost_nemitted(&s.extHost.Events.AfterMessageDeleted) ==>
+//@         exists k string :: k == vcSeqAt(ghost_emitted(&s.extHost.Events.AfterMessageDeleted), j).ID && old(vcHas(s.boxes[mailbox].messages, k))
+//@   loop 1: invariant 0 <= ridx && spec_storeOK(s) && !ghost_closed(s.remove) && spec_detached(messages, mailbox)
+//@   loop 2: invariant spec_detached(messages, mailbox)
+//@   loop 2: invariant 0 <= ridx && ghost_nemitted(&s.extHost.Events.AfterMessageDeleted) == old(ghost_nemitted(&s.extHost.Events.AfterMessageDeleted)) + ridx
+//@   loop 2: invariant forall j int :: { vcSeqAt(ghost_emitted(&s.extHost.Events.AfterMessageDeleted), j) }
+//@      old(ghost_nemitted(&s.extHost.Events.AfterMessageDeleted)) <= j && j < ghost_nemitted(&s.extHost.Events.AfterMessageDeleted) ==>
+//@         vcSeqAt(ghost_emitted(&s.extHost.Events.AfterMessageDeleted), j).Mailbox == mailbox &&
+//@         vcHas(messages, vcSeqAt(ghost_emitted(&s.extHost.Events.AfterMessageDeleted), j).ID)
+//@   serves C07 C16
+
+// VisitMailboxes applies f to the message list of each mailbox that exists when the visit starts.
+//@ func (*Store).VisitMailboxes
+//@   requires spec_storeOK(s)
+//@   modifies *
+//@   attr calls-arg=1
+//@   callbackinv spec_storeOK(s)
+//@   loop 1: invariant 0 <= ridx && vcFresh(boxNames) && spec_storeOK(s)
+//@   loop 2: invariant 0 <= ridx && spec_storeOK(s)
+//@   serves C07 C12
